@@ -276,6 +276,14 @@ def search(run, deep):
                     if abs(num - g) > 1e-6 * max(1e-9, abs(g)) + 1e-9:
                         run.fail_input("gradient", {"ice": name, "params": [ice.n0, ice.k, ice.a, lo, hi], "z": z},
                                        observed=g, expected=num, what="gradient is not the depth derivative of index")
+            # exactly ON the bounds the index still follows the profile, so the gradient is its one-sided derivative there
+            for zb, sgn in ((hi, -1.0), (lo, 1.0)):
+                h = 1e-4
+                num = sgn * (float(ice.index(zb + sgn * h)) - float(ice.index(zb))) / h
+                g = float(ice.gradient(zb)[2])
+                if abs(num) > 1e-7 and abs(num - g) > 1e-3 * abs(num) + 1e-9:
+                    run.fail_input("gradient", {"ice": name, "params": [ice.n0, ice.k, ice.a, lo, hi], "z": zb}, observed=g,
+                                   expected=num, what="gradient exactly on a bound of the valid range is not the (one-sided) depth derivative of index")
             if float(ice.index(hi + 1)) != float(ice.index_above) or float(ice.index(lo - 1)) != float(ice.index_below):
                 run.fail_input("outside", {"ice": name, "params": [ice.n0, ice.k, ice.a, lo, hi]},
                                what="index outside the valid range is not the declared index")
